@@ -1084,20 +1084,26 @@ func (sc *scanner) scanNumber(val *tokenValue, c rune) Token {
 		var err error
 		s := val.raw
 		val.bigInt = nil
-		if len(s) > 2 && s[0] == '0' && (s[1] == 'o' || s[1] == 'O') {
-			val.int, err = strconv.ParseInt(s[2:], 8, 64)
-		} else if len(s) > 2 && s[0] == '0' && (s[1] == 'b' || s[1] == 'B') {
-			val.int, err = strconv.ParseInt(s[2:], 2, 64)
-		} else {
-			val.int, err = strconv.ParseInt(s, 0, 64)
+		// bigInt retries a literal that does not fit in int64.
+		bigInt := func(digits string, base int) {
 			if err != nil {
 				num := new(big.Int)
 				var ok bool
-				val.bigInt, ok = num.SetString(s, 0)
+				val.bigInt, ok = num.SetString(digits, base)
 				if ok {
 					err = nil
 				}
 			}
+		}
+		if len(s) > 2 && s[0] == '0' && (s[1] == 'o' || s[1] == 'O') {
+			val.int, err = strconv.ParseInt(s[2:], 8, 64)
+			bigInt(s[2:], 8)
+		} else if len(s) > 2 && s[0] == '0' && (s[1] == 'b' || s[1] == 'B') {
+			val.int, err = strconv.ParseInt(s[2:], 2, 64)
+			bigInt(s[2:], 2)
+		} else {
+			val.int, err = strconv.ParseInt(s, 0, 64)
+			bigInt(s, 0)
 		}
 		if err != nil {
 			sc.error(start, "invalid int literal")
